@@ -252,7 +252,7 @@ theorem tie_loop {c0 c1 : Circuit} (h0 : LintClean c0) (h1 : LintClean c1) :
 
 theorem satTy_supported (ep : List Name) : T.supported.contains (satTy ep) = true := by
   rw [Limit.T_supported]
-  rcases satTy_cases ep with h | h <;> rw [h] <;> decide
+  rcases satTy_cases ep with h | h | h <;> rw [h] <;> decide
 
 theorem sat_step {c0 c1 m3 : Circuit} {sp : List Name} (ep : List Name) (V : PView c0 c1 sp [] [] m3)
     (hcl : ∀ s ∈ sp, s ≠ "sat") :
@@ -298,7 +298,7 @@ theorem dif_step {c0 c1 mm : Circuit} {sp ep k1 : List Name} {e : Name} (h0 : Li
     (V : PView c0 c1 sp [satNode ep] k1 mm) (hk1 : k1.Nodup) (he : e ∉ k1)
     (hh0 : c0.has e = true) (hh1 : c1.has e = true) (hcl : ∀ s ∈ sp, s ≠ dif e)
     (hty : ∀ t, (c0.ty? e = some t ∨ c1.ty? e = some t) → t ≠ "bb_input" ∧ t ≠ "bb_output")
-    (hbuf : satTy ep = "buf" → k1 = []) :
+    (hbuf : satTy ep = "buf" → k1 = []) (hepne : ep ≠ []) :
     ∃ c', Tx.addC mm (difArgs e) = .ok c' ∧ PView c0 c1 sp [satNode ep] (k1 ++ [e]) c' := by
   have hfresh : mm.has (dif e) = false := by
     cases hh : mm.has (dif e) with
@@ -337,9 +337,9 @@ theorem dif_step {c0 c1 mm : Circuit} {sp ep k1 : List Name} {e : Name} (h0 : Li
       subst hv
       refine ⟨satTy ep, by rw [Limit.ext_ty_old hn hhasS, V.ty_sat], ?_, ?_⟩
       · rw [Limit.T_connectL0]
-        rcases satTy_cases ep with h | h <;> rw [h] <;> decide
+        rcases satTy_cases_ne ep hepne with h | h <;> rw [h] <;> decide
       · rw [Limit.T_connectL1]
-        rcases satTy_cases ep with h | h
+        rcases satTy_cases_ne ep hepne with h | h
         · rw [h]; intro hc; exact absurd hc (by decide)
         · intro _
           rw [fanin_congr hed, V.edges.fanin_sat, hbuf h]
@@ -406,16 +406,19 @@ theorem cmp_loop {c0 c1 : Circuit} {sp ep : List Name} (h0 : LintClean c0) (h1 :
     have hnd' : k1.Nodup ∧ e ∉ k1 := by
       rw [List.nodup_append] at hnd
       refine ⟨hnd.1, fun hs => hnd.2.2 e hs e (by simp) rfl⟩
+    have hepne : ep ≠ [] := by rw [← hep]; simp
+    have hie : ¬ (ep.isEmpty = true) := by rw [List.isEmpty_iff]; exact hepne
     have hbuf : satTy ep = "buf" → k1 = [] := by
       intro hb
       unfold satTy at hb
+      rw [if_neg hie] at hb
       by_cases hl : ep.length > 1
       · rw [if_pos hl] at hb; exact absurd hb (by decide)
       · rw [← hep] at hl
         simp only [List.length_append, List.length_cons] at hl
         exact List.eq_nil_of_length_eq_zero (by omega)
     obtain ⟨c', hc', V'⟩ := dif_step h0 h1 V hnd'.1 hnd'.2 (hh e (by simp)).1 (hh e (by simp)).2
-      (hc e (by simp)) (ht e (by simp)) hbuf
+      (hc e (by simp)) (ht e (by simp)) hbuf hepne
     obtain ⟨m, hm⟩ := cmp_loop h0 h1 l2 (k1 ++ [e]) c' V' (by simpa using hep) (by simpa using hnd)
       (fun x hx => hh x (by simp [hx])) (fun x hx => hc x (by simp [hx])) (fun x hx => ht x (by simp [hx]))
     refine ⟨m, ?_⟩
@@ -430,7 +433,7 @@ theorem cmp_loop {c0 c1 : Circuit} {sp ep : List Name} (h0 : LintClean c0) (h1 :
 theorem ok_bind {α β : Type} (a : α) (f : α → E β) : ((Except.ok a : E α) >>= f) = f a := rfl
 
 theorem miter_ok_pref {c0 c1 : Circuit} {sp ep : List Name} (ord : Ord) (H : OkHyps c0 c1 sp ep)
-    (hb0 : c0.bbs = []) (hb1 : c1.bbs = []) (hne : c1.nodes ≠ []) (hsp : sp ≠ []) (hep : ep ≠ []) :
+    (hb0 : c0.bbs = []) (hb1 : c1.bbs = []) (hne : c1.nodes ≠ []) :
     ∃ m, Tx.miter c0 (some c1) (some sp) (some ep) ord = .ok m := by
   obtain ⟨m1, s1⟩ := addSub_ok_nil (m0 c0 c1) c0 "c0" hb0 (fun n _ => rfl) (typed_isNone H.clean0)
   obtain ⟨n1, e1, _, w1⟩ := sub_exact (wf_m0 c0 c1) H.clean0.toWF s1
@@ -457,7 +460,7 @@ theorem miter_ok_pref {c0 c1 : Circuit} {sp ep : List Name} (ord : Ord) (H : OkH
   obtain ⟨m, s5⟩ := cmp_loop H.clean0 H.clean1 ep [] m4 V4 rfl (by simpa using H.epNodup) H.ep0
     (fun e _ s hs => (H.clash s hs).2.2.2 e) H.epTy
   refine ⟨m, ?_⟩
-  rw [miter_eq c0 c1 sp ep ord hb0 hb1 hne (typed_isNone H.clean0) (typed_isNone H.clean1) hsp hep, s1,
+  rw [miter_eq c0 c1 sp ep ord hb0 hb1 hne (typed_isNone H.clean0) (typed_isNone H.clean1), s1,
     liftO_of, ok_bind, s2, liftO_of, ok_bind, s3, ok_bind, s4, ok_bind, s5]
 
 end Miter
